@@ -44,6 +44,23 @@ static void manual_at(long t) {
         if (odt.compareTo(later) != -1 || later.compareTo(odt) != 1) fail("compareTo does not order by instant", t, kOffs[k], kOffs[k2]);
       }
     }
+    // order by instant against partners at every distance, up to the whole int32 range away (fixed offsets and UTC zones)
+    if (k % 6 == (int) (((unsigned long) t / 7) % 6)) {
+      static const long kDist[] = {1, 59, 3600, 86399, 86400, 31536000L, 1073741824L, 2147483647L, 2147483648L, 3000000000L, 4294967294L};
+      for (long dist : kDist) for (int sgn = -1; sgn <= 1; sgn += 2) {
+        long t3 = t + sgn * dist;
+        int k3 = (k + 5) % kNOffs;
+        long lt3 = t3 + kOffs[k3] * 60L;
+        if (t3 <= INT32_MIN || t3 > INT32_MAX || lt3 <= INT32_MIN || lt3 > INT32_MAX) continue;
+        OffsetDateTime far = OffsetDateTime::forEpochSeconds((acetime_t) t3, TimeOffset::forMinutes((int16_t) kOffs[k3]));
+        nops++;
+        int want = sgn > 0 ? -1 : 1;
+        if (odt.compareTo(far) != want || far.compareTo(odt) != -want) fail("compareTo does not order distant instants", t, t3, kOffs[k3]);
+        ZonedDateTime za = ZonedDateTime::forEpochSeconds((acetime_t) t, TimeZone::forUtc());
+        ZonedDateTime zb = ZonedDateTime::forEpochSeconds((acetime_t) t3, TimeZone::forTimeOffset(TimeOffset::forMinutes((int16_t) kOffs[k3])));
+        if (za.compareTo(zb) != want || zb.compareTo(za) != -want) fail("ZonedDateTime::compareTo does not order distant instants", t, t3, kOffs[k3]);
+      }
+    }
     // the same through a manual TimeZone
     TimeZone tz = TimeZone::forTimeOffset(TimeOffset::forMinutes((int16_t) (kOffs[k] - (k % 2) * 60)), TimeOffset::forMinutes((int16_t) ((k % 2) * 60)));
     ZonedDateTime z = ZonedDateTime::forEpochSeconds((acetime_t) t, tz);
